@@ -96,11 +96,11 @@ def audit_2d(rep, rec):
 
 def check(rep, tier):
     rng = random.Random(rep.seed)
-    ok, msg = common.proof_stage(rep, "C02", ["theories/model/Sn1DF.vo"])
+    ok, msg = common.proof_stage(rep, "C02", ["theories/model/Sn1DF.vo", "theories/model/Sn2DF.vo"])
     rep.rule = ("Snowing runs (1D shelf / VISF; 2D shelf / jacket with height and diameter drawn independently) with every step saved. 1D: the exact discrete balance of every cooling step "
                 "(rho cp dz sum dT = dt (K (T_shelf - T_0) + q_e), tolerance 1e-6), adiabatic nucleation per grid point, cumulative enthalpy vs boundary heat at every reported time of the "
                 "solidification stage (15 %); 2D cooling stage: heat content vs bottom + jacket heat (10 %); one-step binary64 correspondence of the 1D model as in C07; non-trivial = completed run")
-    rep.trusted = ["Coq 8.16.1 kernel + vm_compute", "binary64 instance of model/Sn1D.v", "harness/c02.py enthalpy audits (finite-volume sums; thresholds 15 % (1D solidification) / 10 % (2D cooling))", "2D model: oracle only"]
+    rep.trusted = ["Coq 8.16.1 kernel + vm_compute", "binary64 instance of model/Sn1D.v", "harness/c02.py enthalpy audits (finite-volume sums; thresholds 15 % (1D solidification) / 10 % (2D cooling))", "2D: audit + one-step correspondence with model/Sn2D.v"]
     recs = sr.catalogue(rng, tier, dims=("spatial_1D", "spatial_2D"), confs=None, n1=3 if tier == "quick" else 9, n2=0)
     # 2D: shelf and jacket, default and non-default aspect ratios
     for conf, h, d in ([("jacket", 0.06, 0.06), ("jacket", 0.05, 0.12)] if tier == "quick" else
@@ -116,7 +116,7 @@ def check(rep, tier):
         except Exception as e:
             rec["error"] = e
         recs.append(rec)
-    c1, l1 = [], []
+    c1, l1, c2, l2 = [], [], [], []
     for rec in recs:
         lab = rec["label"]
         if rec["error"] is not None:
@@ -128,6 +128,7 @@ def check(rep, tier):
             txt, info = sr.sn1d_case(rec["S"], rec["dt"], rng); c1.append(txt); l1.append(lab)
         else:
             audit_2d(rep, rec)
+            txt, info = sr.sn2d_case(rec["S"], rec["dt"], rng); c2.append(txt); l2.append(lab)
     rc, out = common.coq_eval("c02_0", c07.HEAD % (coq_list(c1), "(@nil (@Sn1D.p1d PrimFloat.float * PrimFloat.float * list (PrimFloat.float * PrimFloat.float * PrimFloat.float) * list (PrimFloat.float * PrimFloat.float * PrimFloat.float * PrimFloat.float) * list (PrimFloat.float * PrimFloat.float * PrimFloat.float * PrimFloat.float * PrimFloat.float)))"), timeout=900)
     blocks = common.eval_blocks(out)
     if rc != 0 or len(blocks) != 2:
@@ -137,5 +138,6 @@ def check(rep, tier):
         rep.coverage["traces_validated_against_impl"] = len(c1) - len(b1)
         for b in b1:
             rep.violation("model-vs-impl 1D", "one-step correspondence model/Sn1D.v <-> _run_1D no longer checks on %s" % l1[b], dict(correspondence="model/Sn1D.v", run=l1[b]), found_input=False)
+    c07.coq_2d(rep, c2, l2, "c02_2d")
     if not ok:
         rep.violation("proof-broken", "proof obligations of C02 do not check: " + msg, dict(theorem="props/C02.v", log=msg), found_input=False)
